@@ -745,6 +745,12 @@ int cp_rsa_dec(uint8_t *out, size_t *out_len, const uint8_t *in, size_t in_len,
 		bn_new(eb);
 
 		bn_read_bin(eb, in, in_len);
+
+		/* The ciphertext must represent an integer below the modulus (RFC 8017,
+		 * 7.1.2), otherwise c and c + n decrypt alike. */
+		if (bn_cmp(eb, prv->crt->n) != RLC_LT) {
+			result = RLC_ERR;
+		} else {
 #if !defined(CP_CRT)
 		bn_mxp(eb, eb, prv->d, prv->crt->n);
 #else
@@ -769,6 +775,8 @@ int cp_rsa_dec(uint8_t *out, size_t *out_len, const uint8_t *in, size_t in_len,
 			}
 		} else {
 			result = RLC_ERR;
+		}
+
 		}
 	}
 	RLC_CATCH_ANY {
